@@ -2,7 +2,8 @@
 from common import *
 import string
 
-RULE = ("documents of 0..200 entries (1..3 accessions, 0..2 names, sequence text of 0..2000 letters; with or without the "
+RULE = ("documents of 0..200 entries (1..3 accessions, 0..2 names, sequence text of 0..2000 letters; in 30 % of the entries the texts "
+        "are drawn from the reader's whole subset alphabet: blanks, tab, LF, '>', quotes, punctuation, non-ASCII; with or without the "
         "schema's attributes, protein/organism children whose own <name> elements must not leak into the entry's names, "
         "copyright element / comment / nothing between entries; with or without XML declaration and trailing newline), "
         "rendered by Lean's renderDoc; uniprot.Parse on the plain text and through gzip, uniprot.Read on a gzip temp file, "
@@ -21,7 +22,10 @@ TRUSTED_BASE = ["encoding/xml (abstract decoder of the model; its token trace is
                 "with the trace of the Lean reader Spec.XmlScan.scanDoc on the same text)",
                 "compress/gzip", "the Go scheduler and memory model (-race runs look for data races)",
                 "Entry/SequenceType unmarshalling is exercised through the judge (delivered accessions, names, sequence) only"]
-ASSUMPTIONS = ["RULING (gzip header unreadable): uniprot.Read returns its error synchronously and that error is the report; the "
+ASSUMPTIONS = ["offsets of the document spec (truncation, entry ends) are CHARACTER offsets; they are byte offsets for ASCII documents; "
+               "gzip-level damage is converted from the decompressed BYTE count; a cut inside a multi-byte character is reached "
+               "through gzip truncation only",
+               "RULING (gzip header unreadable): uniprot.Read returns its error synchronously and that error is the report; the "
                "channels it returns alongside are not to be consumed and stay open; judged: the file is indeed damaged, no "
                "goroutine was started and nothing arrives on the channels. For Parse on a gzip reader that cannot be built "
                "nothing runs and nothing is judged.",
@@ -38,14 +42,19 @@ PARTIAL = ["content clauses (clause 1 'exactly those k entries with the accessio
            "entries that precede the damage'): proved at the level of the document TEXT for the independent reader "
            "Spec.XmlScan.scanDoc (scan_document, document_delivers, scan_prefix, damaged_document_delivers) over documents of the "
            "XML subset (no entities, CDATA, ']' in text; schema-valid attribute values). MISSING: that encoding/xml + the Entry "
-           "unmarshalling behave like scanDoc is not proved - it is compared on every generated text, damaged ones included "
-           "(everything the Parse loop depends on: entries with contents, sawElement, how the stream ends)",
+           "unmarshalling behave like scanDoc is not proved - it is compared (everything the Parse loop depends on: entries with "
+           "contents, sawElement, how the stream ends) on every generated text of a schema-valid document: undamaged, cut at any "
+           "offset (plain or through gzip), or with one character overwritten outside attribute values and outside the prolog / "
+           "root start tag; a difference fails the check whatever the class of the case (reader-differs). NOT compared, because "
+           "the reader does not model them: typed attribute values (dates, integers), the XML declaration and xmlns, lone high "
+           "bytes, schema-invalid documents; the full list of what is outside the reader is in Spec/XmlScan.lean",
            "clause 2 'reports at least one error': proved for every stream whose trace is not that of a well-formed document "
            "(damaged_terminates, damaged_document_delivers) and, at the level of the TEXT, for TRUNCATION: every cut of a document "
            "before the end of its root element gives the reader a non-clean trace, and the entries it has completed by then are the "
            "document's first entries (truncation_detected, truncated_document_reports). MISSING: the same for corruption other than "
            "truncation (an overwritten byte etc.): no document-level theorem that such a text has a non-clean trace; the judge "
-           "demands >= 1 error on every constructed corruption, and scanDoc agrees with the decoder on all of them",
+           "demands >= 1 error on every corruption that is malformed by construction, and on corruption of uncertain effect the "
+           "entries before it, the closing of both channels, and an error whenever the reader's trace is not clean",
            "termination of the DECODER on a finite input is built into the model's finite traces; the original defect (endless "
            "re-sending of a sticky error) is visible to the correspondence only"]
 TECHNIQUE = ("Lean 4 proof over the token loop of uniprot.Parse on an abstract decoder, as a producer on two channels of a "
@@ -72,6 +81,8 @@ NEEDS_RACE_QUICK = True
 TIMEOUT_MS = 60000
 
 WORD = string.ascii_letters + string.digits + "_"
+# texts of the reader's subset beyond word characters: blanks, tab, LF, '>', quotes, punctuation, non-ASCII
+WIDE = WORD + " \t\n>\"'=/.;:-+*()[{}!?#%@^~|" + "éüΩж世界☃\U0001F9EC"
 AMINO = "ACDEFGHIKLMNPQRSTVWY"
 
 
@@ -124,15 +135,16 @@ def render(prolog, entries, tnl):
 def lst(l):
     return "%d:%s" % (len(l), ",".join(l))
 
-def word(r, lo, hi):
-    return "".join(r.choices(WORD, k=r.randint(lo, hi)))
+def word(r, lo, hi, wide=False):
+    return "".join(r.choices(WIDE if wide else WORD, k=r.randint(lo, hi)))
 
 def entry(r, big=False, valid=True):
-    accs = [word(r, 1, 10) for _ in range(r.choice([1, 1, 2, 3]))]
-    names = [word(r, 1, 12) for _ in range(r.choice([0, 1, 1, 2]))]
+    wide = r.random() < 0.3      # texts from the whole subset alphabet, not only word characters
+    accs = [word(r, 1, 10, wide) for _ in range(r.choice([1, 1, 2, 3]))]
+    names = [word(r, 1, 12, wide) for _ in range(r.choice([0, 1, 1, 2]))]
     k = r.choice([0, 1, 5, 30, 30, 200]) if not big else r.randint(200, 2000)
-    sq = "".join(r.choices(AMINO, k=k))
-    attrs = r.choice([0, 1, 1]) if valid else 2
+    sq = "".join(r.choices(WIDE if wide and r.random() < 0.5 else AMINO, k=k))
+    attrs = r.choice([0, 1, 1]) if valid else r.choice([2, 2, 3, 7])
     return (accs, names, sq, attrs, r.random() < 0.3, r.choice([0, 0, 1, 2, 3, 4]))
 
 def case(r, cons, ent_cap, err_cap, src, damage, prolog, tnl, entries, pylen=True, deadline=None, stall=None):
@@ -232,7 +244,9 @@ def cases(seed, tier):
         elif c < 0.48:
             dmg = "set:%d:1" % r.randint(root_start, root_end - 1)
         elif c < 0.55:
-            dmg = "hset:%d:%d" % (r.randint(root_start, root_end - 1), r.choice([128, 160, 192, 233, 254, 255]))
+            # a lone high byte; the harness works on bytes, so only in ASCII documents (byte offset = character offset)
+            dmg = ("hset:%d:%d" % (r.randint(root_start, root_end - 1), r.choice([128, 160, 192, 233, 254, 255]))
+                   if text.isascii() else "set:%d:1" % r.randint(root_start, root_end - 1))
         elif c < 0.7:
             # '<' into leaf text: pick a position inside some sequence / accession / name text
             cand = [i for i in range(root_start, root_end) if text[i] in WORD and text[i - 1] in WORD + ">" ]
@@ -266,7 +280,8 @@ def cases(seed, tier):
             cand = [p for m in re.finditer(r">([A-Za-z0-9_]+)<", text) for p in range(m.start(1), m.end(1)) if p >= root_start]
             dmg = "set:%d:38" % r.choice(cand) if cand else "none"
         elif kind == 1:
-            cand = [p for p in range(root_start + 1, root_end) if text[p] == '"' and text[p - 1] == "="]
+            cand = [p for p in range(root_start + 1, root_end) if text[p] == '"' and text[p - 1] == "="
+                    and text.rfind("<", 0, p) > text.rfind(">", 0, p) and text[text.rfind("<", 0, p):p].count('"') % 2 == 0]
             dmg = "set:%d:%d" % (r.choice(cand), ord("q"))
         else:
             cand = [p + d for p in range(root_start, root_end) if text[p:p + 5] == "&amp;" for d in (1, 2, 3, 4)]
